@@ -461,6 +461,14 @@ class Driver:
             fn()
             return None
         except Exception as exc:
+            # what a caller does with an error: print it, look at its path (reading an error is an operation too - it must
+            # not change the configuration or the schema; the monitors compare states after the step)
+            try:
+                str(exc)
+                repr(exc)
+                getattr(exc, "ref_path", None)
+            except Exception:
+                pass
             return exc
 
     def _op_set(self, op):
